@@ -296,6 +296,9 @@ func genFltExch(t *rapid.T) FltExch {
 	if x.Fault == "upstream-reject" {
 		x.Code = rapid.SampledFrom([]int{403, 407, 429, 502, 503}).Draw(t, "code")
 	}
+	if x.Fault == "bad-status" {
+		x.K = rapid.SampledFrom([]int{0, 0, 1500, 3000, 6000}).Draw(t, "badstatuslen")
+	}
 	x.Follow = rapid.IntRange(0, 2).Draw(t, "follow") != 0
 	return x
 }
@@ -350,7 +353,11 @@ func buildFltReply(x FltExch, vid string, id uint32) (raw []byte, body []byte, h
 	var h bytes.Buffer
 	status := "HTTP/1.1 " + strconv.Itoa(x.Resp.Status) + " Scripted"
 	if x.Fault == "bad-status" {
+		// K > 0: a very long malformed line (an error text that quotes it grows with it)
 		status = "HTP/1.1 two-hundred OK"
+		if x.K > 0 {
+			status = strings.Repeat("A", x.K) // one long token: the whole line is what is wrong with it
+		}
 	}
 	fmt.Fprintf(&h, "%s\r\nX-Rid: %s\r\nX-Filler: %s\r\n", status, vid, strings.Repeat("f", 100))
 	wire := body
@@ -744,6 +751,9 @@ func classifyC12(c C12Case) (bool, string, []string) {
 	cls := []string{"route-" + x.Route, "fault-" + x.Fault, "method-" + x.Method, fmt.Sprintf("bodylog=%v", x.BodyLog)}
 	if c.Crowd > 1 {
 		cls = append(cls, "simultaneous-clients")
+	}
+	if x.Fault == "bad-status" && x.K > 0 {
+		cls = append(cls, "long-malformed-line")
 	}
 	nt := false
 	if x.Fault == "cut" || x.Fault == "rst" {
